@@ -159,6 +159,9 @@ struct Program {
     mods: Vec<ModD>,
     nprobes: usize,
     note: String,
+    /// references whose meaning is fixed by construction of the tree (dependency
+    /// chains of imports with aliases nothing else introduces): probe id → tag
+    expect: Vec<(usize, i64)>,
 }
 
 // ------------------------------------------------------------------ to the model
@@ -884,6 +887,11 @@ impl<'a> Gen<'a> {
 
     /// import trees for one scope whose aliases are distinct (duplicates rarely)
     fn import_trees(&mut self, m: usize, n: usize) -> Vec<ImpTree> {
+        if n >= 2 && self.rng.chance(1, 4) {
+            if let Some(c) = self.chain_trees(m) {
+                return c;
+            }
+        }
         let mut out: Vec<ImpTree> = vec![];
         let mut aliases: Vec<usize> = vec![];
         for _ in 0..n {
@@ -906,6 +914,42 @@ impl<'a> Gen<'a> {
             }
         }
         out
+    }
+
+    /// a dependency chain of imports for one scope, in random order: a module at
+    /// depth ≥ 2 is imported step by step (`import <path to x1>; import x1.x2; …;
+    /// import xk.<member>;`) — every import but the first starts with the alias
+    /// the one before it introduces
+    fn chain_trees(&mut self, m: usize) -> Option<Vec<ImpTree>> {
+        let cands: Vec<usize> = (0..self.mods.len()).filter(|&t| self.mod_paths[t].len() >= 2).collect();
+        if cands.is_empty() {
+            return None;
+        }
+        let t = *self.rng.pick(&cands);
+        let tp = self.mod_paths[t].clone();
+        for (i, a) in tp.iter().enumerate() {
+            if tp[..i].contains(a) {
+                return None;
+            }
+        }
+        let a1 = (0..self.mods.len()).find(|&i| self.mod_paths[i] == tp[..1])?;
+        self.bad_ok = false;
+        let (p1, _) = self.module_ref(m, a1);
+        self.bad_ok = true;
+        let mut trees = vec![ImpTree::Leaf(p1)];
+        for w in tp.windows(2) {
+            trees.push(ImpTree::Leaf(vec![w[0], w[1]]));
+        }
+        let members: Vec<usize> = self.members(t).into_iter().filter(|x| !tp.contains(x)).collect();
+        if !members.is_empty() && self.rng.chance(2, 3) {
+            let x = *self.rng.pick(&members);
+            trees.push(ImpTree::Leaf(vec![*tp.last().unwrap(), x]));
+        }
+        for i in (1..trees.len()).rev() {
+            let j = self.rng.below(i as u64 + 1) as usize;
+            trees.swap(i, j);
+        }
+        Some(trees)
     }
 
     /// names declared in module `t`: plain items and child modules
@@ -1162,7 +1206,7 @@ fn gen_candidate(seed: u64, index: u64, attempt: u64, tier: &str) -> Program {
         g.rt.push(RtMod { name, fns });
     }
     let nprobes = g.nprobes;
-    Program { names: g.names, rt: g.rt, mods: g.mods, nprobes, note: format!("generated seed={seed} index={index} attempt={attempt}") }
+    Program { names: g.names, rt: g.rt, mods: g.mods, nprobes, note: format!("generated seed={seed} index={index} attempt={attempt}"), expect: vec![] }
 }
 
 /// `FileTree::file_spec` numbers files in depth-first pre-order; the module
@@ -1219,7 +1263,7 @@ fn fixed_cases() -> Vec<Program> {
                 }
             }
         }
-        Program { names, rt, mods, nprobes: n, note: note.to_string() }
+        Program { names, rt, mods, nprobes: n, note: note.to_string(), expect: vec![] }
     };
     let f = |name, tag| ItemD::Fn { name, tag, body: None };
     let cx = |name, tag, b: Block| ItemD::Fn { name, tag, body: Some(b) };
@@ -1410,6 +1454,182 @@ fn fixed_cases() -> Vec<Program> {
     out
 }
 
+// ------------------------------------------------------------------ dependency chains of imports
+
+/// the `idx`-th permutation of `0..n` (lexicographic; `idx < n!`)
+fn nth_perm(n: usize, mut idx: u64) -> Vec<usize> {
+    let mut pool: Vec<usize> = (0..n).collect();
+    let mut out = vec![];
+    for k in (1..=n).rev() {
+        let f: u64 = (1..k as u64).product();
+        let q = (idx / f) as usize;
+        idx %= f;
+        out.push(pool.remove(q.min(pool.len() - 1)));
+    }
+    out
+}
+
+const CHAIN_LENGTHS: [usize; 3] = [3, 4, 5];
+const CHAIN_PLACEMENTS: u64 = 2;
+
+fn chain_perms_per_placement() -> u64 {
+    CHAIN_LENGTHS.iter().map(|&n| (1..=n as u64).product::<u64>()).sum()
+}
+
+/// class representatives: one scope whose `n` imports form a dependency chain
+/// (`import super.aa; import aa.bb; …; import <innermost>.ff;`), written in the
+/// `k`-th order; every alias is introduced by nothing but its import, so every
+/// order must compile and mean the same.  Placement 0: at module level;
+/// placement 1: in an `if` block of a function whose module has its own `ff`.
+fn chain_case(k: u64) -> Option<Program> {
+    let per = chain_perms_per_placement();
+    if k >= per * CHAIN_PLACEMENTS {
+        return None;
+    }
+    let placement = k / per;
+    let mut r = k % per;
+    let mut n = 0;
+    for &len in &CHAIN_LENGTHS {
+        let f: u64 = (1..=len as u64).product();
+        if r < f {
+            n = len;
+            break;
+        }
+        r -= f;
+    }
+    let perm = nth_perm(n, r);
+    let (aa, bb, cc, ff) = (3, 4, 5, 6);
+    let mut names = base_names();
+    let c0 = names.len();
+    names.extend(["cx0", "dd", "uu"].iter().map(|s| s.to_string()));
+    let (cx0, dd, uu) = (c0, c0 + 1, c0 + 2);
+    let chain_mods = [aa, bb, cc, dd];
+    let f = |name, tag| ItemD::Fn { name, tag, body: None };
+    // pkg, then the nested modules aa { bb { … } }, each with its own `ff`
+    let mut mods = vec![ModD { ident: PKG, parent: None, items: vec![f(ff, 2000)] }];
+    for d in 0..n - 1 {
+        mods.push(ModD { ident: chain_mods[d], parent: Some(d), items: vec![f(ff, 1001 + d as i64)] });
+    }
+    let deep = 1001 + (n as i64 - 2);
+    // the imports in dependency order
+    let mut chain: Vec<Path> = vec![vec![SUPER, aa]];
+    for d in 1..n - 1 {
+        chain.push(vec![chain_mods[d - 1], chain_mods[d]]);
+    }
+    chain.push(vec![chain_mods[n - 2], ff]);
+    let written: Vec<ImpTree> = perm.iter().map(|&i| ImpTree::Leaf(chain[i].clone())).collect();
+    let pr = |id, path: &[usize]| Stmt::Probe { id, kind: PKind::Fn, path: path.to_vec(), form: "chain" };
+    let user = if placement == 0 {
+        ModD { ident: uu, parent: Some(0), items: vec![
+            ItemD::Imports(written),
+            ItemD::Fn { name: cx0, tag: 900, body: Some(Block { imports: vec![], stmts: vec![
+                pr(0, &[ff]), pr(1, &[chain_mods[n - 2], ff]), pr(2, &[aa, ff]),
+            ] }) },
+        ] }
+    } else {
+        ModD { ident: uu, parent: Some(0), items: vec![
+            f(ff, 3000),
+            ItemD::Fn { name: cx0, tag: 900, body: Some(Block { imports: vec![], stmts: vec![
+                Stmt::Block(1, Block { imports: written, stmts: vec![pr(0, &[ff]), pr(1, &[chain_mods[n - 2], ff]), pr(2, &[aa, ff])] }),
+                pr(3, &[ff]),
+            ] }) },
+        ] }
+    };
+    mods.push(user);
+    let mut expect = vec![(0, deep), (1, deep), (2, 1001)];
+    if placement == 1 {
+        expect.push((3, 3000));
+    }
+    Some(Program {
+        names,
+        rt: vec![],
+        mods,
+        nprobes: expect.len(),
+        note: format!("dependency chain of {n} imports, {} level, written in order {:?}", if placement == 0 { "module" } else { "block" }, perm),
+        expect,
+    })
+}
+
+/// the property for trees whose meaning is fixed by construction: every order of
+/// a dependency chain compiles and every reference means the designated item
+fn expect_oracle(rep: &mut Report, p: &Program, res: &CaseResult, ident: &J, label: &str) {
+    if p.expect.is_empty() {
+        return;
+    }
+    let all = |_: usize| true;
+    let empty = BTreeMap::new();
+    let infos = probe_infos(p).probes;
+    for (id, tag) in &p.expect {
+        let got = res.seen.get(id).cloned().unwrap_or_else(|| res.base.clone());
+        rep.evaluations += 1;
+        if got != Out::Ok(*tag) {
+            let what = if matches!(got, Out::Ok(_)) { "wrong-item" } else { "rejected" };
+            violate(
+                rep,
+                &format!(
+                    "{}: the reference `{}` must mean the item with tag {tag} in every order of the imports (each import is resolvable once the import of the same scope it depends on has been processed), the compiler says {} ({label})",
+                    p.note, infos.get(id).map(|i| path_str(&i.path, &p.names)).unwrap_or_default(), got.show()
+                ),
+                &format!("import-chain:{what}"),
+                json!({"case": ident, "variant": label, "probe": id, "sources": sources_json(p, &all, &empty)}),
+            );
+        }
+    }
+}
+
+const ENUM_CHAIN_CASES: u64 = 48;
+
+/// module → enum → variant chains (enums are outside the Lean model: judged by
+/// running the program): `import super.aa; import aa.bb; import bb.Color;
+/// import Color.Green;` in every order, at module level (k < 24) and in a block
+fn enum_chain_case(rep: &mut Report, k: u64, ident: &J) {
+    let perm = nth_perm(4, k % 24);
+    let in_block = k / 24 == 1;
+    let chain = ["import super.aa;", "import aa.bb;", "import bb.Color;", "import Color.Green;"];
+    let imports: String = perm.iter().map(|&i| format!("{}\n", chain[i])).collect();
+    let user = if in_block {
+        format!("fn pick(c: i32) -> i32 {{ 4000 + c }}\nfn run(x: i32) -> i32 {{\nif x > 0 {{\n{imports}x + bb.pick(Green)\n}} else {{\npick(x)\n}}\n}}\n")
+    } else {
+        format!("{imports}fn run(x: i32) -> i32 {{ x + bb.pick(Green) }}\n")
+    };
+    let file = |name: &str, module: &str, src: &str| SourceFile {
+        name: name.to_string(),
+        module_name: module.to_string(),
+        contents: src.to_string(),
+        location_offset: 0,
+        children: Vec::new(),
+    };
+    let bb_src = "enum Color { Red, Green }\nfn pick(c: Color) -> i32 {\nmatch c {\nRed => 1,\nGreen => 2,\n}\n}\n";
+    let spec = FileSpec::Directory(
+        file("e0/pkg.roto", "pkg", "fn pick(c: i32) -> i32 { 2000 + c }\n"),
+        vec![
+            FileSpec::Directory(file("e1/aa/mod.roto", "aa", "fn pick(c: i32) -> i32 { 1000 + c }\n"), vec![FileSpec::File(file("e2/aa/bb.roto", "bb", bb_src))]),
+            FileSpec::File(file("e3/uu.roto", "uu", &user)),
+        ],
+    );
+    let rt = Runtime::new();
+    let got = catch_unwind(AssertUnwindSafe(|| match FileTree::file_spec(spec).compile(&rt) {
+        Ok(mut pkg) => match pkg.get_function::<fn(i32) -> i32>("uu.run") {
+            Ok(f) => format!("run(5)={} run(-5)={}", f.call(5), f.call(-5)),
+            Err(_) => "uu.run not retrievable".to_string(),
+        },
+        Err(e) => format!("rejected: {}", strip_ansi(&format!("{e}")).lines().take(4).collect::<Vec<_>>().join(" | ")),
+    }))
+    .unwrap_or_else(|_| format!("panic:{}", PANIC_MSG.lock().map(|g| g.clone()).unwrap_or_default()));
+    let want = if in_block { "run(5)=7 run(-5)=3995".to_string() } else { "run(5)=7 run(-5)=-3".to_string() };
+    rep.evaluations += 1;
+    rep.class(format!("enum-chain|{}|{}", if in_block { "block" } else { "module" }, if got == want { "ok" } else { "differs" }));
+    rep.hist("import_chain", "enum-variant");
+    if got != want {
+        violate(
+            rep,
+            &format!("module → enum → variant chain of imports written in order {perm:?} ({}): expected {want}, got {got}", if in_block { "block level" } else { "module level" }),
+            "import-chain:enum-variant",
+            json!({"case": ident, "order": perm, "sources": {"uu.roto": user, "aa/bb.roto": bb_src}}),
+        );
+    }
+}
+
 // ------------------------------------------------------------------ one case
 
 fn reverse_imports_block(b: &mut Block) {
@@ -1482,22 +1702,57 @@ fn rotated_imports(p: &Program) -> Option<Program> {
 /// the enclosing scopes, i.e. not after `super`) is the alias (last segment) of
 /// another path of the list?
 fn alias_prefix_pair(p: &Program, mi: usize, ps: &[Path]) -> bool {
-    // the alias an import introduces: its last segment, or — for `super…super` —
-    // the name of the module it denotes
-    let alias = |a: &Path| -> Option<usize> {
-        if !a.is_empty() && a.iter().all(|x| *x == SUPER) {
-            let mut m = mi;
-            for _ in 0..a.len() {
-                m = p.mods[m].parent?;
-            }
-            Some(p.mods[m].ident)
-        } else {
-            a.last().copied()
-        }
-    };
     for (i, a) in ps.iter().enumerate() {
         for (j, b) in ps.iter().enumerate() {
-            if i != j && b.len() > 1 && b[0] != SUPER && alias(a) == Some(b[0]) {
+            if i != j && b.len() > 1 && b[0] != SUPER && alias_of(p, mi, a) == Some(b[0]) {
+                return true;
+            }
+        }
+    }
+    false
+}
+
+/// the alias an import introduces: its last segment, or — for `super…super` —
+/// the name of the module it denotes
+fn alias_of(p: &Program, mi: usize, a: &Path) -> Option<usize> {
+    if !a.is_empty() && a.iter().all(|x| *x == SUPER) {
+        let mut m = mi;
+        for _ in 0..a.len() {
+            m = p.mods[m].parent?;
+        }
+        Some(p.mods[m].ident)
+    } else {
+        a.last().copied()
+    }
+}
+
+/// Names that mean something in the scope of module `mi` without any import of
+/// that scope: `pkg`, registered runtime modules (root scope), the module's
+/// items and child modules.
+fn module_visible_names(p: &Program, mi: usize) -> Vec<usize> {
+    let mut out = vec![PKG];
+    out.extend(p.rt.iter().map(|r| r.name));
+    out.extend((0..p.mods.len()).filter(|&c| p.mods[c].parent == Some(mi)).map(|c| p.mods[c].ident));
+    for it in &p.mods[mi].items {
+        match it {
+            ItemD::Fn { name, .. } | ItemD::Const { name, .. } | ItemD::Ty { name, .. } => out.push(*name),
+            _ => {}
+        }
+    }
+    out
+}
+
+/// like `alias_prefix_pair`, but only pairs whose shared name may also mean
+/// something without the sibling import (`visible`: an over-approximation of
+/// the names the scope sees otherwise — its own declarations wherever they
+/// stand, everything enclosing scopes declare or import) — the shape of the open
+/// finding `C13-import-order-sibling-alias`.  When the shared name cannot be
+/// seen otherwise, the dependent path can only be resolved through the sibling
+/// import: the order of the two must not matter.
+fn alias_prefix_pair_visible(p: &Program, mi: usize, ps: &[Path], visible: &[usize]) -> bool {
+    for (i, a) in ps.iter().enumerate() {
+        for (j, b) in ps.iter().enumerate() {
+            if i != j && b.len() > 1 && b[0] != SUPER && alias_of(p, mi, a) == Some(b[0]) && visible.contains(&b[0]) {
                 return true;
             }
         }
@@ -1544,6 +1799,8 @@ struct Sites {
     let_seq: BTreeMap<(String, String), usize>,
     /// canonical names of the scopes whose import list has an alias-prefix pair
     pair_scopes: Vec<String>,
+    /// … and the shared name of such a pair may also be visible without the sibling import
+    visible_pair_scopes: Vec<String>,
     /// every import: (canonical scope, path, position in program order of the block start)
     imports: Vec<(String, Path, usize)>,
     /// context functions (dotted path below pkg) that take a parameter
@@ -1555,14 +1812,28 @@ fn probe_infos(p: &Program) -> Sites {
     let mut decls: BTreeMap<(String, String), i64> = BTreeMap::new();
     let mut let_seq: BTreeMap<(String, String), usize> = BTreeMap::new();
     let mut pair_scopes: Vec<String> = vec![];
+    let mut visible_pair_scopes: Vec<String> = vec![];
     let mut imports: Vec<(String, Path, usize)> = vec![];
     let mut with_param: Vec<String> = vec![];
     let mut seq = 0usize;
     #[allow(clippy::too_many_arguments)]
-    fn walk(p: &Program, mi: usize, b: &Block, ctx: &str, scope: &str, depth: usize, next_block: &mut usize, seq: &mut usize, out: &mut BTreeMap<usize, ProbeInfo>, decls: &mut BTreeMap<(String, String), i64>, let_seq: &mut BTreeMap<(String, String), usize>, pair_scopes: &mut Vec<String>, imports: &mut Vec<(String, Path, usize)>) {
+    fn walk(p: &Program, mi: usize, b: &Block, ctx: &str, scope: &str, depth: usize, next_block: &mut usize, seq: &mut usize, out: &mut BTreeMap<usize, ProbeInfo>, decls: &mut BTreeMap<(String, String), i64>, let_seq: &mut BTreeMap<(String, String), usize>, pair_scopes: &mut Vec<String>, visible_pair_scopes: &mut Vec<String>, imports: &mut Vec<(String, Path, usize)>, outer: &[usize]) {
         if alias_prefix_pair(p, mi, &flatten_all(&b.imports)) {
             pair_scopes.push(scope.to_string());
         }
+        // what this scope sees without its own imports: its locals (wherever they
+        // stand) and everything the enclosing scopes declare or import
+        let mut visible: Vec<usize> = outer.to_vec();
+        for s in &b.stmts {
+            if let Stmt::Let(x, _) | Stmt::Param(x, _) = s {
+                visible.push(*x);
+            }
+        }
+        if alias_prefix_pair_visible(p, mi, &flatten_all(&b.imports), &visible) {
+            visible_pair_scopes.push(scope.to_string());
+        }
+        visible.extend(flatten_all(&b.imports).iter().filter_map(|ip| alias_of(p, mi, ip)));
+        let outer: &[usize] = &visible;
         for ip in flatten_all(&b.imports) {
             imports.push((scope.to_string(), ip, *seq + 1));
         }
@@ -1575,7 +1846,7 @@ fn probe_infos(p: &Program) -> Sites {
                 Stmt::Block(_, inner) => {
                     let id = *next_block;
                     *next_block += 1;
-                    walk(p, mi, inner, ctx, &format!("{scope}.$b{id}"), depth + 1, next_block, seq, out, decls, let_seq, pair_scopes, imports);
+                    walk(p, mi, inner, ctx, &format!("{scope}.$b{id}"), depth + 1, next_block, seq, out, decls, let_seq, pair_scopes, visible_pair_scopes, imports, outer);
                 }
                 Stmt::Let(x, t) => {
                     decls.entry((scope.to_string(), p.names[*x].clone())).or_insert(*t);
@@ -1600,6 +1871,11 @@ fn probe_infos(p: &Program) -> Sites {
         if alias_prefix_pair(p, mi, &module_imports) {
             pair_scopes.push(mn[mi].clone());
         }
+        let mut module_visible = module_visible_names(p, mi);
+        if alias_prefix_pair_visible(p, mi, &module_imports, &module_visible) {
+            visible_pair_scopes.push(mn[mi].clone());
+        }
+        module_visible.extend(module_imports.iter().filter_map(|ip| alias_of(p, mi, ip)));
         for ip in &module_imports {
             imports.push((mn[mi].clone(), ip.clone(), 0));
         }
@@ -1615,7 +1891,7 @@ fn probe_infos(p: &Program) -> Sites {
                             with_param.push(below.clone());
                             below = format!("{below}#{t}");
                         }
-                        walk(p, mi, b, &below, &fscope, 0, &mut next_block, &mut seq, &mut out, &mut decls, &mut let_seq, &mut pair_scopes, &mut imports);
+                        walk(p, mi, b, &below, &fscope, 0, &mut next_block, &mut seq, &mut out, &mut decls, &mut let_seq, &mut pair_scopes, &mut visible_pair_scopes, &mut imports, &module_visible);
                     }
                 }
                 ItemD::Const { name, tag } | ItemD::Ty { name, tag } => {
@@ -1636,7 +1912,7 @@ fn probe_infos(p: &Program) -> Sites {
             decls.entry((p.names[r.name].clone(), p.names[*n].clone())).or_insert(*t);
         }
     }
-    Sites { probes: out, decls, let_seq, pair_scopes, imports, with_param }
+    Sites { probes: out, decls, let_seq, pair_scopes, visible_pair_scopes, imports, with_param }
 }
 
 /// **Program-level oracle for absolute paths**: `pkg.<module path>.<item>` must
@@ -2221,7 +2497,9 @@ fn check_variant(rep: &mut Report, drv: &mut Driver, p: &Program, label: &str, i
     if !dsc.is_empty() {
         let by_canon: BTreeMap<String, usize> = dsc.iter().enumerate().filter_map(|(i, s)| s.canon.clone().map(|c| (c, i))).collect();
         for (scope, ipath, seq) in &sites.imports {
-            if sites.pair_scopes.iter().any(|ps| ps == scope) {
+            // a dependent pair whose shared name may also mean something else: the
+            // final graph does not say what the path meant when it was imported
+            if sites.visible_pair_scopes.iter().any(|ps| ps == scope) {
                 continue;
             }
             // `import x.….x`: the path's own alias must not be consulted for its first segment
@@ -2459,13 +2737,19 @@ fn check_case(rep: &mut Report, drv: &mut Driver, p: &Program, ident: J, tier: &
     let max_err = if tier == "thorough" { 12 } else { 6 };
     let disk = if index % 3 == 0 { Some(Prng::for_case(index, 77).next()) } else { None };
     let first = check_variant(rep, drv, p, "as-written", &ident, max_err, disk);
+    expect_oracle(rep, p, &first, &ident, "as-written");
     // import order: the same tree with every scope's imports reversed
     let q = reversed_imports(p);
     let second = check_variant(rep, drv, &q, "imports-reversed", &ident, max_err, None);
+    expect_oracle(rep, &q, &second, &ident, "imports-reversed");
     let mut differs = vec![];
     let sites = probe_infos(p);
     // is every difference below a scope whose import list has an alias-prefix pair?
-    let mut explained = !sites.pair_scopes.is_empty();
+    let mut explained = !sites.visible_pair_scopes.is_empty();
+    rep.hist(
+        "dependent_import_lists",
+        if sites.pair_scopes.is_empty() { "none" } else if sites.visible_pair_scopes.is_empty() { "aliases-fresh" } else { "alias-also-visible" },
+    );
     let mut others = vec![second];
     if let Some(r) = rotated_imports(p) {
         others.push(check_variant(rep, drv, &r, "imports-rotated", &ident, max_err, None));
@@ -2482,7 +2766,7 @@ fn check_case(rep: &mut Report, drv: &mut Driver, p: &Program, ident: J, tier: &
                 if a != b {
                     differs.push(format!("reference {id}: {} vs {}", a.show(), b.show()));
                     let at = &sites.probes[id].scope;
-                    if !sites.pair_scopes.iter().any(|ps| at == ps || at.starts_with(&format!("{ps}."))) {
+                    if !sites.visible_pair_scopes.iter().any(|ps| at == ps || at.starts_with(&format!("{ps}."))) {
                         explained = false;
                     }
                 }
@@ -2554,11 +2838,30 @@ fn run_range(seed: u64, tier: &str, from: u64, n: u64, rep: &mut Report) {
         if index == 0 {
             invalid_name_in_memory(rep);
         }
-        let mut p = if (index as usize) < fixed.len() { fixed[index as usize].clone() } else { gen_case(&mut drv, seed, index, tier) };
+        let ident = json!({"seed": seed, "index": index, "tier": tier});
+        let nfixed = fixed.len() as u64;
+        let nchain = chain_perms_per_placement() * CHAIN_PLACEMENTS;
+        if index >= nfixed && index < nfixed + nchain {
+            // one order of a dependency chain: model vs compiler vs the meaning fixed by construction
+            let p = chain_case(index - nfixed).expect("chain case");
+            rep.hist("import_chain", format!("len{}", p.mods.len() - 1));
+            let r = check_variant(rep, &mut drv, &p, "as-written", &ident, 6, None);
+            expect_oracle(rep, &p, &r, &ident, "as-written");
+            for c in r.class {
+                rep.class(c);
+            }
+            rep.class(format!("chain|{}", p.note.split(", written").next().unwrap_or("")));
+            continue;
+        }
+        if index >= nfixed + nchain && index < nfixed + nchain + ENUM_CHAIN_CASES {
+            enum_chain_case(rep, index - nfixed - nchain, &ident);
+            continue;
+        }
+        let mut p = if index < nfixed { fixed[index as usize].clone() } else { gen_case(&mut drv, seed, index, tier) };
         normalize_order(&mut p);
         rep.hist("modules_per_tree", p.mods.len().to_string());
         rep.hist("runtime_module", if p.rt.is_empty() { "no" } else { "yes" });
-        let r = check_case(rep, &mut drv, &p, json!({"seed": seed, "index": index, "tier": tier}), tier, index);
+        let r = check_case(rep, &mut drv, &p, ident, tier, index);
         for c in r.class {
             rep.class(c);
         }
@@ -2596,8 +2899,8 @@ fn main() {
                 );
             });
             rep.notes.push(format!(
-                "{total} module trees (first {} fixed boundary trees), each as written and with every scope's imports reversed; every third also written to disk and discovered",
-                fixed_cases().len()
+                "{total} cases: {} fixed boundary trees, then {} orders of dependency chains of 3-5 imports (module and block level) and {} orders of module -> enum -> variant chains, then generated module trees, each as written and with every scope's imports reversed / rotated; every third also written to disk and discovered",
+                fixed_cases().len(), chain_perms_per_placement() * CHAIN_PLACEMENTS, ENUM_CHAIN_CASES
             ));
             rep.emit();
         }
@@ -2627,7 +2930,13 @@ fn main() {
             let tier = args.get(4).map(|s| s.as_str()).unwrap_or("quick");
             let fixed = fixed_cases();
             let mut drv = Driver::spawn().expect("lean driver");
-            let mut p = if (index as usize) < fixed.len() { fixed[index as usize].clone() } else { gen_case(&mut drv, seed, index, tier) };
+            let mut p = if (index as usize) < fixed.len() {
+                fixed[index as usize].clone()
+            } else if let Some(c) = chain_case(index - fixed.len() as u64) {
+                c
+            } else {
+                gen_case(&mut drv, seed, index, tier)
+            };
             normalize_order(&mut p);
             let all = |_: usize| true;
             let m = ask_model(&mut drv, &p, &all);
